@@ -17,6 +17,8 @@ pub fn crash_history_strategy(max: usize) -> impl Strategy<Value = Vec<Op>> {
 
 pub fn test_history(ops: &[Op], cfg: &CrashCfg, local: &mut Local) -> Check {
     let rec = record(ops)?;
+    // evaluations count recoveries (crash states), not histories
+    local.evals = local.evals.saturating_sub(1);
     let mut stats = CrashStats { recoveries: 0 };
     let r = enumerate(&rec, cfg, local, &mut stats);
     local.class_n("recoveries", stats.recoveries);
@@ -26,7 +28,7 @@ pub fn test_history(ops: &[Op], cfg: &CrashCfg, local: &mut Local) -> Check {
 
 pub fn run(ctx: &Ctx) {
     ctx.set_rule(
-        "evaluations = histories; for each history EVERY prefix of its journal of mutating storage operations (write/del/truncate \
+        "evaluations = recoveries (crash states rebuilt, reopened and checked); for each generated history EVERY prefix of its journal of mutating storage operations (write/del/truncate \
          on the four stores) after creation is rebuilt, reopened with open(true), observed (length, byte length, fork, writeable, \
          has/get of every index <= length+2) and must equal the model before or after the call in progress (exactly 'after all \
          returned calls' at call boundaries); then a fixed usability suffix (appends, clears, reopens) runs against the model, and \
